@@ -3,7 +3,7 @@
    payload_queue markAsAcked).  Ghost g_pend = bytes of each stream still in the pending queue.
    Only statements closed by [exact] + Print Assumptions. *)
 From Coq Require Import ZArith Bool List.
-From Sctp Require Import Gen SnaProofs Sender SenderProofs StreamW StreamWProofs.
+From Sctp Require Import Gen SnaProofs Sender SenderProofs StreamW StreamWProofs BufLow BufLowProofs.
 Import ListNotations.
 Open Scope Z_scope.
 
@@ -73,3 +73,42 @@ Example c15_example_gap_then_cum :
   | _, _ => False
   end.
 Proof. vm_compute. intuition (try discriminate; try reflexivity; repeat constructor). Qed.
+Print Assumptions c15_example_gap_then_cum.
+
+(* --- the low-threshold callback (Stream.onBufferReleased, model coq/model/BufLow.v) --- *)
+
+(* one release: the amount drops by exactly n, clamped at zero (never underflows), a non-positive n changes
+   nothing, and the callback is invoked exactly when one is registered and this call takes the amount from
+   above the threshold to at or below it *)
+Theorem c15_release_fires_iff_crossing : forall v low n hascb, 0 <= v ->
+  let (v', f) := bl_released v low n hascb in
+  0 <= v' <= v /\ (0 < n -> v' = Z.max 0 (v - n)) /\ (n <= 0 -> v' = v) /\
+  (f = true <-> hascb = true /\ low < v /\ v' <= low).
+Proof. exact bl_released_spec. Qed.
+Print Assumptions c15_release_fires_iff_crossing.
+
+(* for every history of accepted writes and releases on one stream: whenever the amount goes from above the
+   threshold to at or below it, the callback fired in between (no downward crossing is missed) *)
+Theorem c15_callback_for_each_downward_crossing : forall evs low v vn fs,
+  bl_run low v evs = (vn, fs) -> (forall n, In (BlWrite n) evs -> 0 <= n) ->
+  low < v -> vn <= low -> existsb (fun b => b) fs = true.
+Proof. exact bl_crossing_fires. Qed.
+Print Assumptions c15_callback_for_each_downward_crossing.
+
+(* ... and only for crossings: while the amount stays at or below the threshold nothing fires, and every firing
+   is a release that crossed *)
+Theorem c15_callback_only_on_crossing : forall evs low v vn fs,
+  bl_run low v evs = (vn, fs) -> (forall e, In e evs -> exists n, e = BlRel n) ->
+  0 <= v <= low -> forallb negb fs = true /\ 0 <= vn <= low.
+Proof. exact bl_no_fire_below. Qed.
+Print Assumptions c15_callback_only_on_crossing.
+
+Theorem c15_firing_is_a_crossing : forall low v e v1, 0 <= v -> bl_step low v e = (v1, true) ->
+  exists n, e = BlRel n /\ 0 < n /\ low < v /\ v1 <= low /\ v1 = Z.max 0 (v - n).
+Proof. exact bl_fire_is_crossing. Qed.
+Print Assumptions c15_firing_is_a_crossing.
+
+(* non-vacuity: two crossings, two firings; the release that stays above and the one that starts below do not fire *)
+Example c15_example_two_crossings :
+  bl_run 1000 3000 [BlRel 1500; BlRel 600; BlRel 300; BlWrite 2000; BlRel 1700] = (900, [false; true; false; false; true]).
+Proof. vm_compute. reflexivity. Qed.
